@@ -79,11 +79,27 @@ class Register:
                     raise JaqalError(
                         f"Cannot slice parameter {alias_from.name} of non-register kind {alias_from.kind}."
                     )
-            elif alias_from.size is not None and not isinstance(
-                alias_from.size, AnnotatedValue
-            ):
-                if alias_slice.stop > alias_from.size:
+            else:
+                if alias_slice.step is not None and alias_slice.step == 0:
+                    raise JaqalError("Slice step cannot be zero.")
+                if alias_slice.start is not None and alias_slice.start < 0:
                     raise JaqalError("Index out of range.")
+                if alias_from.size is not None and not isinstance(
+                    alias_from.size, AnnotatedValue
+                ):
+                    if alias_slice.stop > alias_from.size:
+                        raise JaqalError("Index out of range.")
+                    # With a negative step the first element is the largest
+                    # and the last the smallest.
+                    indices = range(
+                        alias_slice.start or 0,
+                        alias_slice.stop,
+                        1 if alias_slice.step is None else alias_slice.step,
+                    )
+                    if len(indices) > 0 and (
+                        indices[0] >= alias_from.size or indices[-1] < 0
+                    ):
+                        raise JaqalError("Index out of range.")
 
     def __hash__(self):
         return hash((self.__class__, self._name, self._size))
@@ -210,7 +226,7 @@ class Register:
         while isinstance(size, AnnotatedValue):
             # The size of a register may be given by a let constant
             size = size.resolve_value(context)
-        if size is not None and idx >= size:
+        if size is not None and (idx < 0 or idx >= size):
             raise JaqalError("Index out of range.")
         if self.fundamental:
             return (self, idx)
@@ -294,7 +310,7 @@ class NamedQubit:
                 from_size = int(alias_from.size)
             except JaqalError:
                 return
-            if alias_index >= from_size:
+            if alias_index < 0 or alias_index >= from_size:
                 raise JaqalError("Index out of range.")
 
     def __hash__(self):
